@@ -5,11 +5,11 @@ F = "jade/result.py"
 FIN = "JobCompletionStatus.FINISHED.value"
 CAN = "JobCompletionStatus.CANCELED.value"
 
-contract("Result.is_successful", file=F, params=[("self", "Ref[Result]")], returns="bool",
+contract("Result.is_successful", file=F, pure=True, params=[("self", "Ref[Result]")], returns="bool",
          ensures=[f"result == (self.return_code == 0 and self.status == {FIN})"])
-contract("Result.is_failed", file=F, params=[("self", "Ref[Result]")], returns="bool",
+contract("Result.is_failed", file=F, pure=True, params=[("self", "Ref[Result]")], returns="bool",
          ensures=[f"result == (self.return_code != 0 and self.status == {FIN})"])
-contract("Result.is_canceled", file=F, params=[("self", "Ref[Result]")], returns="bool",
+contract("Result.is_canceled", file=F, pure=True, params=[("self", "Ref[Result]")], returns="bool",
          ensures=[f"result == (self.return_code != 0 and self.status == {CAN})"])
 
 # a well-formed result row: produced by AsyncCliCommand._complete (finished, any code), AsyncCliCommand.cancel or
